@@ -153,8 +153,8 @@ rec observe( const char* buf, const std::size_t n )
 
 struct rule_entry
 {
-   const char* family;
-   const char* text;
+   std::string family;
+   std::string text;
    std::string dump;
    rec ( *fn )( const char*, std::size_t );
 };
@@ -166,13 +166,27 @@ std::vector< rule_entry >& rules()
 }
 
 template< typename Rule >
-void add( const char* family, const char* text )
+void add( const std::string& family, const std::string& text )
 {
    rules().push_back( { family, text, describe< typename Rule::rule_t >::str(), &observe< Rule > } );
 }
 
 // the surface text is the stringified template-id itself, so it cannot drift from the type
 #define R( fam, ns, ... ) add< ns::__VA_ARGS__ >( fam, #__VA_ARGS__ )
+
+// every 8-bit mask: mask_one< M, M & 0xA5, M & 0x3C > and mask_range< M, M & 0x0F, M >; the surface
+// text is built from the same constant M that instantiates the rule
+template< unsigned M >
+void add_all_masks()
+{
+   constexpr std::uint8_t m = std::uint8_t( M );
+   const std::string ms = std::to_string( M );
+   add< pegtl::uint8::mask_one< m, std::uint8_t( m & 0xA5 ), std::uint8_t( m & 0x3C ) > >( "uint8m", "mask_one< " + ms + ", " + std::to_string( M & 0xA5 ) + ", " + std::to_string( M & 0x3C ) + " >" );
+   add< pegtl::uint8::mask_range< m, std::uint8_t( m & 0x0F ), m > >( "uint8m", "mask_range< " + ms + ", " + std::to_string( M & 0x0F ) + ", " + ms + " >" );
+   if constexpr( M < 255 ) {
+      add_all_masks< M + 1 >();
+   }
+}
 
 void register_rules()
 {
@@ -288,6 +302,8 @@ void register_rules()
    R( "uint8", pegtl::uint8, mask_range< 0xAA, 0x02, 0xA8 > );
    R( "uint8", pegtl::uint8, mask_not_range< 0x7F, 0x20, 0x7E > );
    R( "uint8", pegtl::uint8, mask_ranges< 0x3C, 0x04, 0x0C, 0x30, 0x38, 0x3C > );
+
+   add_all_masks< 0 >();
 
    // ---- uint16
    R( "uint16be", pegtl::uint16_be, any );
@@ -476,7 +492,7 @@ int main( int argc, char** argv )
                fam = e.family;
                idx = 0;
             }
-            std::printf( "RULE %s %d %s | %s\n", e.family, idx++, e.text, e.dump.c_str() );
+            std::printf( "RULE %s %d %s | %s\n", e.family.c_str(), idx++, e.text.c_str(), e.dump.c_str() );
          }
          return 0;
       }
